@@ -77,6 +77,12 @@ fn depth_delta(tok: &str) -> i32 {
 // ------------------------------------------------------------------ generation
 
 fn gen_form(rng: &mut Rng, literals_with_parens: bool, defined: &mut Vec<String>) -> (String, &'static str) {
+    if rng.chance(1, 14) {
+        // a string literal that contains a line break: it can only be typed on two lines
+        let a = *rng.pick(&["top", "first (line", "a;b"]);
+        let b = *rng.pick(&["bottom", "second) line", ""]);
+        return (format!("(display \"{}\n{}\")", a, b), "newline-in-string");
+    }
     let c = rng.upto(if literals_with_parens { 20 } else { 12 });
     match c {
         0 => {
@@ -168,7 +174,16 @@ fn generate_f(seed: u64, quick: bool) -> Value {
                     let pad = *rng.pick(&[" ", " ", " ", "  ", "\t"]);
                     line.push_str(pad);
                 }
-                line.push_str(t);
+                if t.contains('\n') {
+                    let mut parts = t.split('\n');
+                    line.push_str(parts.next().unwrap_or(""));
+                    for part in parts {
+                        lines.push(json!({"text": line, "completes": null}));
+                        line = part.to_string();
+                    }
+                } else {
+                    line.push_str(t);
+                }
                 depth += depth_delta(t);
                 let last = ti + 1 == toks.len();
                 if !last && depth > 0 && t != "'" && rng.chance(break_p, 6) {
@@ -211,25 +226,28 @@ fn reference(subs: &[Value]) -> Result<Vec<(String, String)>, String> {
         Err(p) => return Err(format!("panic creating the reference interpreter: {}", p.signature())),
     };
     for s in subs {
-        let text: String = s["forms"]
-            .as_array()
-            .unwrap()
-            .iter()
-            .map(|f| f.as_str().unwrap().to_string())
-            .collect::<Vec<_>>()
-            .join(" ");
-        let (r, captured) = capture_stdout(|| guarded(|| it.eval(text.chars())));
-        let mut so = String::from_utf8_lossy(&captured).to_string();
+        // "evaluating the same forms one after another on one interpreter": each form of the
+        // submission by itself, stopping at the first that fails; only the last one's value shows
+        let forms: Vec<String> = s["forms"].as_array().unwrap().iter().map(|f| f.as_str().unwrap().to_string()).collect();
+        let mut so = String::new();
         let mut se = String::new();
-        match r {
-            Ok(Ok(Some(v))) => {
-                if !matches!(v, RValue::Void) {
-                    so.push_str(&format!("{}\n", v));
+        let n = forms.len();
+        for (fi, text) in forms.iter().enumerate() {
+            let (r, captured) = capture_stdout(|| guarded(|| it.eval(text.chars())));
+            so.push_str(&String::from_utf8_lossy(&captured));
+            match r {
+                Ok(Ok(Some(v))) => {
+                    if fi + 1 == n && !matches!(v, RValue::Void) {
+                        so.push_str(&format!("{}\n", v));
+                    }
                 }
+                Ok(Ok(None)) => {}
+                Ok(Err(e)) => {
+                    se.push_str(&format!("{}\n", e));
+                    break;
+                }
+                Err(p) => return Err(format!("panic in the reference evaluation of {:?}: {}", text, p.signature())),
             }
-            Ok(Ok(None)) => {}
-            Ok(Err(e)) => se.push_str(&format!("{}\n", e)),
-            Err(p) => return Err(format!("panic in the reference evaluation of {:?}: {}", text, p.signature())),
         }
         out.push((so, se));
     }
@@ -297,14 +315,16 @@ fn execute_f(case: Value) -> RunResult {
         // the independent completeness judge must agree with the generator's annotation
         {
             let mut depth = 0i32;
+            let mut in_string = false;
             for l in &lines {
                 let t = l["text"].as_str().unwrap_or("");
-                let code = strip_comment(t);
-                for tok in tokens(&code) {
-                    depth += depth_delta(&tok);
-                }
+                let (delta, nonblank) = scan_line(t, &mut in_string);
+                depth += delta;
                 let completes = !l["completes"].is_null();
-                let nonblank = !tokens(&code).is_empty();
+                if in_string && completes {
+                    res.invalid = Some(format!("splitting {} ends a submission inside a string at line {:?}", k, t));
+                    return res;
+                }
                 if completes != (depth <= 0 && nonblank) && nonblank {
                     res.invalid = Some(format!("splitting {} is not well formed at line {:?}", k, t));
                     return res;
@@ -525,6 +545,50 @@ fn execute_f(case: Value) -> RunResult {
     res
 }
 
+/// nesting-depth change of one input line and whether it holds anything but blanks and
+/// comments; `in_string` carries a string literal that continues from the previous line
+fn scan_line(line: &str, in_string: &mut bool) -> (i32, bool) {
+    let cs: Vec<char> = line.chars().collect();
+    let mut i = 0;
+    let mut delta = 0;
+    let mut nonblank = *in_string;
+    while i < cs.len() {
+        let c = cs[i];
+        if *in_string {
+            nonblank = true;
+            if c == '\\' {
+                i += 1;
+            } else if c == '"' {
+                *in_string = false;
+            }
+        } else if c == '"' {
+            nonblank = true;
+            *in_string = true;
+        } else if c == '#' && cs.get(i + 1) == Some(&'\\') {
+            nonblank = true;
+            i += 2;
+        } else if c == '|' {
+            nonblank = true;
+            i += 1;
+            while i < cs.len() && cs[i] != '|' {
+                i += 1;
+            }
+        } else if c == ';' {
+            break;
+        } else if c == '(' {
+            nonblank = true;
+            delta += 1;
+        } else if c == ')' {
+            nonblank = true;
+            delta -= 1;
+        } else if !c.is_whitespace() {
+            nonblank = true;
+        }
+        i += 1;
+    }
+    (delta, nonblank)
+}
+
 fn strip_comment(line: &str) -> String {
     // a ';' outside strings and characters starts a comment
     let cs: Vec<char> = line.chars().collect();
@@ -631,7 +695,16 @@ impl Engine for EngineF {
             out.push(c);
         }
         // no EOF fault; drop blank/comment lines; join a submission onto one line
+        let spans_lines = case["submissions"].to_string().contains("newline-in-string");
         for (k, sp) in splits.iter().enumerate() {
+            if spans_lines {
+                if !sp["eof_after"].is_null() {
+                    let mut s2 = splits.clone();
+                    s2[k]["eof_after"] = Value::Null;
+                    out.push(with_field(case, "splittings", json!(s2)));
+                }
+                continue;
+            }
             if !sp["eof_after"].is_null() {
                 let mut s2 = splits.clone();
                 s2[k]["eof_after"] = Value::Null;
